@@ -8,6 +8,7 @@ import (
 	"fmt"
 	"math"
 	"sort"
+	"strconv"
 	"strings"
 	"time"
 
@@ -463,6 +464,11 @@ func vfWrongScalar(t *rapid.T, cur any, label string) any {
 			cands = append(cands, c)
 		}
 	}
+	if i, isInt := cur.(int); isInt && i > -1<<50 && i < 1<<50 {
+		// the same number in the spelling of a float (24.0), which the typed
+		// loaders of all schemas take for an integer setting
+		cands = append(cands, float64(i), float64(i), float64(24), float64(500000))
+	}
 
 	return rapid.SampledFrom(cands).Draw(t, label)
 }
@@ -728,6 +734,15 @@ func vfToNode(t *rapid.T, v any, st vfTextStyle, label string, depth int) (n *ya
 	case time.Time:
 		// Node.Encode would produce a quoted (string) scalar here.
 		return &yaml.Node{Kind: yaml.ScalarNode, Tag: "!!timestamp", Value: x.Format(time.RFC3339Nano)}, nil
+	case float64:
+		if vfIntegralFloat(x) {
+			// the encoder would print 24, which reads back as an integer
+			return &yaml.Node{Kind: yaml.ScalarNode, Tag: "!!float", Value: strconv.FormatFloat(x, 'f', 1, 64)}, nil
+		}
+		n = &yaml.Node{}
+		err = n.Encode(v)
+
+		return n, err
 	default:
 		n = &yaml.Node{}
 		err = n.Encode(v)
@@ -736,9 +751,37 @@ func vfToNode(t *rapid.T, v any, st vfTextStyle, label string, depth int) (n *ya
 	}
 }
 
+// vfIntegralFloat reports whether x is a float with an integral value that the
+// YAML encoder would print like an integer.
+func vfIntegralFloat(x float64) (ok bool) {
+	return !math.IsInf(x, 0) && !math.IsNaN(x) && x == math.Trunc(x) && math.Abs(x) < 1e15
+}
+
+// vfHasIntegralFloat reports whether the tree holds such a value.
+func vfHasIntegralFloat(v any) (ok bool) {
+	switch x := v.(type) {
+	case vfMap:
+		for _, e := range x {
+			if vfHasIntegralFloat(e) {
+				return true
+			}
+		}
+	case vfList:
+		for _, e := range x {
+			if vfHasIntegralFloat(e) {
+				return true
+			}
+		}
+	case float64:
+		return vfIntegralFloat(x)
+	}
+
+	return false
+}
+
 // vfText serialises the document.
 func vfText(t *rapid.T, doc vfMap, st vfTextStyle) (b []byte, err error) {
-	if !st.Shuffle && !st.Flow {
+	if !st.Shuffle && !st.Flow && !vfHasIntegralFloat(doc) {
 		b, err = yaml.Marshal(doc)
 	} else {
 		var n *yaml.Node
